@@ -198,6 +198,7 @@ def judge_time(case, ctx, prefix):
         ctx.violation(f'{prefix}/time/frequency-components-raised/{ws.key}', ws.text, {})
         return
     worst_tol, s_p = 0.0, 0.0
+    refs = {}
     for w in ws:
         refd = netsolve.reference_from_ref(circdesc.ref_network(cd, w, W_RES))
         if refd is None or refd['kappa'] > 1e6:
@@ -205,6 +206,7 @@ def judge_time(case, ctx, prefix):
             return
         worst_tol = max(worst_tol, refd['tol'])
         s_p += refd['s_phi'] * refd['s_i']
+        refs[float(w)] = refd
     sol = call(TimeDomainSolution, circ, case['w_max'])
     if raised(sol):
         ctx.violation(f'{prefix}/time/solve-raised/{sol.key}', sol.text, {})
@@ -232,8 +234,50 @@ def judge_time(case, ctx, prefix):
     if m and float(np.max(np.abs(tot))) > worst_tol * len(ws) ** 2 * m * 16:
         ctx.violation(f'{prefix}/time/power-not-conserved', f'sum of instantaneous powers reaches {float(np.max(np.abs(tot)))!r} against {m!r}', {})
     ctx.count('balance_checked_time')
+    spectrum_power_clause(ctx, prefix, cd, circ, case['w_max'], refs, worst_tol * 16 * max(s_p, 1e-300))
     ctx.evaluated(circdesc.signature(cd, ('time', len(ws))), float(np.max(mag)) > 0)
     ctx.sample({k: v for k, v in case.items()})
+
+
+def spectrum_power_clause(ctx, prefix, cd, circ, w_max, refs, lim):
+    """power lines of FrequencyDomainSolution: one-sided line k = 1/2 V_k conj(I_k) (peak phasors); in the two-sided spectrum the
+    lines at +w_k and -w_k are complex conjugates and add up to the average power Re(1/2 V_k conj(I_k)) carried at that frequency"""
+    from CircuitCalculator.Circuit.solution import FrequencyDomainSolution
+    comps = [c for c in cd['components'] if c['ctor'] != 'ground']
+    for one_sided in (True, False):
+        side = 'one-sided' if one_sided else 'two-sided'
+        fds = call(FrequencyDomainSolution, circuit=circ, w_max=w_max, one_sided=one_sided)
+        if raised(fds):
+            ctx.violation(f'{prefix}/spectrum/{side}/raised/{fds.key}', fds.text, {})
+            continue
+        for c in comps:
+            r = call(fds.get_power, c['id'])
+            if raised(r):
+                ctx.violation(f'{prefix}/spectrum/{side}/query-raised/{r.key}', r.text, {})
+                return
+            wl, pl = np.asarray(r[0], dtype=float).reshape(-1), np.asarray(r[1], dtype=complex).reshape(-1)
+            if wl.shape != pl.shape:
+                ctx.violation(f'{prefix}/spectrum/{side}/malformed', f'{wl.shape} frequencies for {pl.shape} power values', {})
+                return
+            for f, refd in refs.items():
+                S = 0.5 * refd['rep']['P'][c['id']]
+                pos = [p for w_, p in zip(wl, pl) if abs(w_ - f) <= W_RES]
+                neg = [p for w_, p in zip(wl, pl) if abs(w_ + f) <= W_RES and f > 0]
+                ctx.count('spectral_power_lines_checked')
+                if len(pos) != 1 or (not one_sided and f > 0 and len(neg) != 1):
+                    ctx.violation(f'{prefix}/spectrum/{side}/line-count', f'{len(pos)} line(s) at {f!r} and {len(neg)} at {-f!r} in the power spectrum of {c["id"]!r}', {})
+                    return
+                if one_sided or f == 0:
+                    if abs(pos[0] - S) > lim:
+                        ctx.violation(f'{prefix}/spectrum/{side}/definition/{"dc-line" if f == 0 else "ac-line"}', f'power line of {c["id"]!r} at w={f!r} is {pos[0]!r}, 1/2 V conj(I) = {S!r}', {})
+                        return
+                else:
+                    if abs(neg[0] - pos[0].conjugate()) > lim:
+                        ctx.violation(f'{prefix}/spectrum/{side}/not-conjugate-symmetric', f'{c["id"]!r}: P(+{f!r}) = {pos[0]!r}, P(-{f!r}) = {neg[0]!r}', {})
+                        return
+                    if abs((pos[0] + neg[0]) - S.real) > lim:
+                        ctx.violation(f'{prefix}/spectrum/{side}/lines-do-not-add-up-to-average-power', f'{c["id"]!r} at w={f!r}: P(+w) + P(-w) = {pos[0] + neg[0]!r}, average power at that frequency Re(1/2 V conj(I)) = {S.real!r}', {})
+                        return
 
 
 def judge_transient(case, ctx, prefix):
